@@ -423,7 +423,9 @@ def handle_frame_contract():
     D = f"aead_dec({K}, old(self._decrypt_cipher._nonce), frame)"
     return Contract(
         NOISE + "APINoiseFrameHelper._handle_frame", self_type=SELF, params={"frame": "bytes"}, tags=["C03", "C04"],
-        requires=[VALID, ("ready", "self._state == 3 and self._decrypt_cipher is not None"), ("nonce-nonneg", "self._decrypt_cipher._nonce >= 0")],
+        # frames are decrypted and delivered only by a helper that is READY: not before the handshake completed (C03), not after close (C08)
+        requires=[VALID, Clause("delivery-only-while-ready", "self._state == 3 and self._decrypt_cipher is not None", "property", ["C03", "C08"]),
+                  ("nonce-nonneg", "self._decrypt_cipher._nonce >= 0")],
         ensures=[
             P("C03", "delivers-exactly-the-authenticated-message",
               f"frame == aead_enc({K}, old(self._decrypt_cipher._nonce), {D}) and ghost.packets == old(ghost.packets) + ((({D})[0] * 256 + ({D})[1], ({D})[4:]),)"),
@@ -548,7 +550,7 @@ def init_contract():
         params={"connection": "obj[Connection]", "noise_psk": "str", "expected_name": "opt[str]", "client_info": "str", "log_name": "str"},
         ensures=[P("C04", "a-helper-exists-only-for-a-valid-key", "len(b64(noise_psk)) == 32 and not b64_fails and self._noise_psk == noise_psk"),
                  P("C03", "starts-in-hello-state-with-the-handshake-prepared",
-                   "self._state == 1 and self._expected_name is expected_name and self._encrypt_cipher is None and self._decrypt_cipher is None and "
+                   "self._state == 1 and self._expected_name == expected_name and self._encrypt_cipher is None and self._decrypt_cipher is None and "
                    "proto_calls() == (('from_name', b'Noise_NNpsk0_25519_ChaChaPoly_SHA256'), ('set_as_initiator',), ('set_psks', b64(noise_psk)), "
                    "('set_prologue', b'NoiseAPIInit\\x00\\x00'), ('start_handshake',))"),
                  ("nothing-written", "ghost.wire == old(ghost.wire)")],
@@ -649,7 +651,7 @@ def targets_for(eng, names, tags):
         c = cs[n]()
         c.tags = list(tags)
         from contracts import native_noise
-        out.append(contract_target(c, replay=native_noise.REPLAYS.get(n)))
+        out.append(contract_target(c, replay=native_noise.REPLAYS.get(n), bounded=native_noise.bounded_noise_session))
     return out
 
 
